@@ -15,7 +15,7 @@ RULE = (
 )
 REQUIRED = ["rt_bipartite_str_ids", "rt_bipartite_int_ids", "rt_strings", "rt_species_graph",
             "export_bipartite_checked", "export_species_checked", "from_str_checked",
-            "shared_pair_networks", "multi_digit_coeff_networks", "networks_with_id_equal_to_species_label", "networks_with_formula_like_labels", "from_str_mixed_separator_spacing"]
+            "shared_pair_networks", "multi_digit_coeff_networks", "networks_with_id_equal_to_species_label", "networks_with_formula_like_labels", "networks_with_line_notation_labels", "from_str_mixed_separator_spacing"]
 ASSUMPTIONS = [
     "labels follow the documented grammar; rule labels contain no whitespace",
     "species-graph round trip only claimed for networks whose reactions all have both sides; rules not compared there",
@@ -338,6 +338,10 @@ def run(ctx):
         if rng.random() < 0.35:
             # labels that are legal identifiers but look like numbers-with-exponents, formulas or prefixed names
             pool_l = ["E1S", "E2P", "e5a", "H2O", "CO2", "NAD", "X1", "R2D2", "E10", "spA", "A", "rxB", "S1", "E1"]
+            if rng.random() < 0.5:
+                # line-notation labels (start with a letter, then bond / branch symbols): legal labels that are not identifiers
+                pool_l = ["CC=O", "C#N", "CC(=O)O", "C=C", "OC(=O)C", "N#N", "CC(C)=O", "O=C=O"[2:] + "x", "A", "H2O", "E1"]
+                ctx.count("networks_with_line_notation_labels")
             names = W.species_of(net)
             mp = dict(zip(names, rng.sample(pool_l, len(names)))) if len(names) <= len(pool_l) else None
             if mp:
